@@ -287,7 +287,7 @@ func drawWitness(t *rapid.T, leaves []*cond, focus, focusVariant int) *witness {
 			if len(same) > 1 {
 				l = same[rapid.IntRange(0, len(same)-1).Draw(t, "w_leaf")]
 			}
-			variant = rapid.IntRange(0, 6).Draw(t, "w_variant")
+			variant = uni(t, "w_variant", 7)
 		}
 		if val, present := valueFor(t, l, variant); present {
 			w.set(key, val)
